@@ -57,6 +57,5 @@ def run(ctx):
     for c in cases[:: max(1, len(cases) // 3)][:3]:
         ctx.sample({"case": c, "specified": exp_by_id.get(c["id"])})
     ctx.assumptions += ["NaN results are compared by class (the specification leaves the payload open); the operand pools are boundary values per "
-                        "width plus seeded random values, not all 2^64 operands", "float add/sub/mul/div/sqrt and fused / pairwise / widening vector "
-                        "instructions are not defined in Numeric.tla; for those the only oracle is engine agreement (C01)",
+                        "width plus seeded random values, not all 2^64 operands", "float vector arithmetic is checked lane-wise through the scalar definitions; fused multiply-add does not exist in the enabled feature set",
                         "ties of demote / nearest / convert are fixed by the definition alone (the Laws accept either neighbour)"]
